@@ -8,35 +8,42 @@ DIRECTIVE = "ast::asm::Directive"
 
 
 def excluded_from_recording(F, b, rec_block):
-    """the set of Directive variants for which the pass-1 recording block is skipped, and whether
-    instructions are recorded: read from the switch structure that decides the (bool) guard of the block"""
+    """the set of Directive variants for which the pass-1 recording block is skipped, and whether instructions are
+    recorded: every acyclic path to the recording block is walked with the constants assigned on it (the bool of a
+    `matches!`, also through a copy or a `!`) deciding later switches, and the labels of the switches on the statement
+    kind and on the directive variant are collected.  Independent of how the test is spelt (inline, helper, if/match)."""
     names = tables.variant_names(F, DIRECTIVE)
-    guards = shape.edge_conds(b, rec_block)
-    res = {"excluded": None, "instr_recorded": None, "guard_local": None}
-    for d, via in guards:
-        if d.startswith("local") and via == ("0",):
-            l = int(d[5:])
-            res["guard_local"] = l
-            true_sets = []
-            false_seen = False
-            for bi, si, rv in b.defs().get(l, []):
-                if not (isinstance(rv, dict) and rv.get("k") == "use" and rv["op"].get("k") == "const"):
-                    return res
-                val = rv["op"].get("val")
-                ec = shape.edge_conds(b, bi)
-                dirs = [via2 for d2, via2 in ec if d2.endswith("as Directive.0)") and d2.startswith("discr(")]
-                kinds = [via2 for d2, via2 in ec if d2.endswith(".nucleus)") and d2.startswith("discr(")]
-                if val == 1:
-                    if len(dirs) != 1 or kinds != [("1",)]:
-                        return res
-                    true_sets.append(set(names[int(v)] for v in dirs[0] if v.isdigit()))
-                    if any(not v.isdigit() for v in dirs[0]):
-                        return res
-                else:
-                    false_seen = True
-            if true_sets and false_seen:
-                res["excluded"] = set().union(*true_sets)
-                res["instr_recorded"] = True
+    res = {"excluded": None, "instr_recorded": None}
+    want = lambda x: x.startswith("discr(") and (x.endswith(" as Directive.0)") or x.endswith(".nucleus)"))
+    pcs = nf.path_conditions(b, rec_block, want, track_consts=True, else_sets=True)
+    if not pcs:
+        return res
+    rec = set()
+    instr = False
+    for pc in pcs:
+        r = nf.resolve_labels(pc)
+        if r is None:
+            continue                                        # infeasible combination of decisions
+        nuc = [v for d, v in r.items() if d.endswith(".nucleus)")]
+        dirs = [v for d, v in r.items() if d.endswith(" as Directive.0)")]
+        if len(nuc) != 1 or len(dirs) > 1:
+            return res
+        kind = nuc[0]
+        is_dir = kind == ("is", "1") or (kind[0] == "not" and "1" not in kind[1] and "0" in kind[1])
+        is_ins = kind == ("is", "0") or (kind[0] == "not" and "0" not in kind[1] and "1" in kind[1])
+        if is_ins and not dirs:
+            instr = True
+        elif is_dir:
+            if not dirs:
+                rec |= set(names)
+            elif dirs[0][0] == "is":
+                rec.add(names[int(dirs[0][1])])
+            else:
+                rec |= set(n for i, n in enumerate(names) if str(i) not in dirs[0][1])
+        else:
+            return res
+    res["excluded"] = set(names) - rec
+    res["instr_recorded"] = instr
     return res
 
 
@@ -88,8 +95,8 @@ def run(ck, ctx):
         nx = [bi for bi, t, c, _ in b.calls() if (c or "").endswith("Iterator>::next") and b.dominates(bi, rbi)]
         head = max(nx) if nx else None
         before = bool(sh) and head is not None and all(b.can_reach(rbi, s, avoid=(head,)) and not b.can_reach(s, rbi, avoid=(head,)) for s in sh)
-        ck.ob("C24.2", "record-before-shift", before and len(sh) == 2,
-              "within one loop iteration the record (block %s) precedes both cursor shifts (blocks %s) and cannot follow them" % (rbi, sh), where)
+        ck.ob("C24.2", "record-before-shift", before and len(sh) >= 1,
+              "within one loop iteration the record (block %s) precedes every cursor shift (blocks %s) and cannot follow one" % (rbi, sh), where)
         opn = [d for d, via in shape.edge_conds(b, rbi)]
         ck.ob("C24.2", "inside-open-block", len([d for d in opn if d.startswith("discr(Option::")]) >= 2,
               "recording is guarded by the open-block cursor and by the presence of debug info: %s" % opn, where)
